@@ -1031,13 +1031,31 @@ def fam_fault(ctx: Ctx, env: Env, spec: dict) -> None:
         env.new_top(sc)
     rf = ReadFault().install()
     try:
+        sb = env.app.state_backend
         for item in spec["plan"]:
             inv = env.tops[item[1]]
             rf.armed = item[0] == "top-fault"
+            once = {"n": 0}
+            inner = sb.get_workflow_data
+            if item[0] == "top-fault-at":
+                # a TRANSIENT fault: only the k-th read of a workflow record during this execution fails (a busy database, a network
+                # blip); every other read answers.  Whatever the execution does about it, the n-th value of a kind stays the n-th value.
+                def flaky(workflow_identity, key, default=None, _inner=inner, _k=item[2]):  # type: ignore[no-untyped-def]
+                    once["n"] += 1
+                    if once["n"] == _k:
+                        import sqlite3
+
+                        rf.hits += 1
+                        raise sqlite3.OperationalError("database is locked")
+                    return _inner(workflow_identity, key, default)
+
+                sb.get_workflow_data = flaky
             try:
                 run_inline(env, str(inv.invocation_id), f"W{item[1]}", None)
             finally:
                 rf.armed = False
+                if item[0] == "top-fault-at":
+                    sb.get_workflow_data = inner
     finally:
         rf.uninstall()
     env.notes["read_faults_injected"] = rf.hits
@@ -1047,6 +1065,7 @@ def spec_fault(rng) -> dict:  # type: ignore[no-untyped-def]
     ch = gen_children(rng)
     scripts = [[["s", "k0", ch["k0"]], "t", "r", "t", "u"], gen_script(rng, ch, 2, 5)]
     plan = [["top", 0], ["top", 1], ["top-fault", 0], ["top-fault", 1], ["top", 0], ["top", 1], ["top-fault", 0], ["top", 0]]
+    plan += [["top-fault-at", rng.choice([0, 1]), rng.randint(1, 6)] for _ in range(4)] + [["top", 0], ["top", 1]]
     return {"family": "fault", "children": ch, "scripts": scripts, "plan": plan}
 
 
@@ -1394,8 +1413,9 @@ def run(ctx: Ctx) -> None:
         # a re-execution that cannot read the workflow records (SQLite read fault): oracle only
         for _ in range(2 if q else 10):
             sp = spec_fault(ctx.rng)
-            run_scenario(ctx, None, None, "sqlite", sp)
-            ctx.distinct(("fault", "sqlite", shape(sp)))
+            for backend in ("sqlite", "mem"):      # (the all-reads-fail items act on SQLite only, the transient ones on both)
+                run_scenario(ctx, None, None, backend, sp)
+                ctx.distinct(("fault", backend, shape(sp)))
         # a sub-task with registration concurrency whose identical call is waiting outside the workflow: oracle only
         for _ in range(2 if q else 8):
             for backend in ("mem", "sqlite"):
